@@ -41,7 +41,15 @@ type Base64Encode struct {
 // Call the the function with the arguments provided.
 func (f *Base64Encode) Call(s *slip.Scope, args slip.List, depth int) slip.Object {
 	slip.CheckArgCount(s, depth, f, args, 1, 1)
-	source := []byte(slip.CoerceToOctets(args[0]).(slip.Octets))
+	source := octetsArg(args[0])
 
 	return slip.String(base64.StdEncoding.EncodeToString(source))
+}
+
+// octetsArg coerces arg to octets and returns the bytes. The empty list, nil,
+// is an empty sequence of octets.
+func octetsArg(arg slip.Object) []byte {
+	octs, _ := slip.CoerceToOctets(arg).(slip.Octets)
+
+	return octs
 }
